@@ -24,7 +24,6 @@ const (
 	sigRejects   = "C10 Equals rejects structurally equal values"
 	sigSymm      = "C10 Equals not symmetric"
 	sigTrans     = "C10 Equals not transitive"
-	sigHashZero  = "C10 Equal values hash differently: +0/-0 pair"
 	sigHash      = "C10 Equal values hash differently"
 	sigImpure    = "C10 hash of one value differs between computations"
 	sigMapOrder  = "C10 map hash depends on entry order"
@@ -344,7 +343,7 @@ func variants(rng *rand.Rand, base *cont, nextAddr *int, r *hx.Result) []*cont {
 			d.keys[rng.Intn(len(d.keys))] = append([]byte("renamed-"), byte('0'+rng.Intn(10)))
 			add("one-key-renamed", d)
 		}
-		// flip the sign of a zero (Equal, finding F15 for the hash)
+		// flip the sign of a zero: Equal, and (since `fix: hash -0.0 like +0.0`) the same hash
 		z := fresh(base.clone())
 		flipped := false
 		for i := range z.elems {
@@ -418,11 +417,7 @@ func checkPair(cfg Config, r *hx.Result, run runner, a, b *cont, rng *rand.Rand)
 	if res.eq {
 		ha, hb := run.hash(a, rng), run.hash(b, rng)
 		if ha != hb {
-			sig := sigHash
-			if hasZeroPair(a, b) {
-				sig = sigHashZero
-			}
-			r.OracleFail(hx.Case{Sig: sig, Op: op, Impl: fmt.Sprintf("Equal, hashes %d and %d", ha, hb), Expected: "equal hashes"})
+			r.OracleFail(hx.Case{Sig: sigHash, Op: op, Impl: fmt.Sprintf("Equal, hashes %d and %d", ha, hb), Expected: "equal hashes"})
 		}
 	}
 	if cfg.Driver != nil {
@@ -502,7 +497,7 @@ type famKind struct {
 
 var famKinds = []famKind{{'c', "i32"}, {'c', "i64"}, {'c', "f32"}, {'c', "f64"}, {'c', "bool"}, {'c', "str"}, {'o', ""}, {'b', ""}}
 
-// fixedEqCorpus: the situations the property names, and F15's witness
+// fixedEqCorpus: the situations the property names, and the former F15 witnesses (+0/-0)
 func fixedEqCorpus(cfg Config, r *hx.Result, rng *rand.Rand) {
 	f := func(kind string, u uint64) elem { return elem{p: prim{kind: kind, u: u}} }
 	pz, nz, nan := f("f64", 0), f("f64", 1<<63), f("f64", 0x7FF8000000000001)
